@@ -56,6 +56,10 @@ func seqsToBlocks[T Instruction](seqs [][]T) []block[T] {
 }
 
 func splitByAddress[T Instruction](seq []T) [][]T {
+	if len(seq) == 0 {
+		return nil
+	}
+
 	seqs := make([][]T, 0, 1)
 	begin := 0
 
